@@ -71,6 +71,7 @@ def policy_strategy(tier):
         st.tuples(st.just("push"), st.integers(0, 3), st.integers(0, 6), st.integers(0, 2)),
         st.tuples(st.just("pop"), st.just(0), st.just(0), st.just(0)),
         st.tuples(st.just("adv"), st.integers(0, 3), st.just(0), st.just(0)),
+        st.tuples(st.just("maint"), st.integers(0, 3), st.just(0), st.just(0)),
     )
     return st.fixed_dictionaries({
         "policy": st.sampled_from(POLICIES), "cap": st.sampled_from([0, 0, 1, 2, 3, 5]), "a": st.integers(1, 4),
@@ -142,6 +143,12 @@ class RefPolicy:
         self.items.append((self.seq, it))
         self.seq += 1
         return True
+
+    def purge(self, now_tk):
+        """deadline only: remove exactly the expired items; -> their ids"""
+        gone = [e for e in self.items if e[1].dl < now_tk]
+        self.items = [e for e in self.items if e[1].dl >= now_tk]
+        return [e[1].id for e in gone]
 
     def pop(self, now_tk):
         """-> (item | None, number of expired items dropped on the way)"""
@@ -219,6 +226,66 @@ def policy_execute(case):
             if deq is not None and deq != popped:
                 bad(f"stats-dequeued-wrong/{name}", f"{where}: stats.dequeued={deq} popped={popped}")
 
+    # ---- every public attribute of the policy class is either part of the QueuePolicy interface, an observer that is
+    # compared with the harness's own bookkeeping below, or a maintenance method exercised by the "maint" op; anything
+    # else (a method added later) is reported as a label so that it cannot silently stay unexercised
+    INTERFACE = {"capacity", "push", "pop", "peek", "is_empty"}
+    OBSERVERS = {"stats", "count_expired", "count_valid", "flow_count", "get_flow_depth", "get_flow_weight", "max_flows",
+                 "per_flow_capacity", "congestion_threshold", "is_congested", "mode", "dropping", "interval", "target_delay",
+                 "avg_queue_length", "max_probability", "max_threshold", "min_threshold", "inner", "balk_threshold",
+                 "balk_probability", "balked"}
+    MAINTENANCE = {"purge_expired", "set_clock"}
+    for attr in dir(type(p)):
+        if not attr.startswith("_") and attr not in INTERFACE | OBSERVERS | MAINTENANCE:
+            r.labels.append(f"unexercised-public-method:{type(p).__name__}.{attr}")
+
+    def observers(where):
+        n0 = len(p)
+        alive = [held[i] for i in order if i in held]
+        pk = p.peek()
+        if len(p) != n0:
+            bad(f"observer-changes-queue/{name}", f"{where}: peek() changed len {n0} -> {len(p)}")
+        if pk is not None and not isinstance(pk, It):
+            bad(f"peek-returns-foreign-object/{name}", f"{where}: {pk!r}")
+        if name == "deadline":
+            exp_ = sum(1 for it in alive if it.dl < now[0])
+            if p.count_expired() != exp_ or p.count_valid() != len(p) - exp_:
+                bad(f"expired-count-wrong/{name}", f"{where}: count_expired={p.count_expired()} count_valid={p.count_valid()} "
+                    f"len={len(p)}, held with deadline < now: {exp_}")
+        if name in ("fair", "wfq"):
+            flows = {}
+            for it in alive:
+                flows[it.flow] = flows.get(it.flow, 0) + 1
+            for f in range(3):
+                if p.get_flow_depth(f"f{f}") != flows.get(f, 0):
+                    bad(f"flow-depth-wrong/{name}", f"{where}: get_flow_depth(f{f})={p.get_flow_depth(f'f{f}')} held {flows.get(f, 0)}")
+            if p.flow_count != len(flows):
+                bad(f"flow-depth-wrong/{name}", f"{where}: flow_count={p.flow_count} flows holding items {sorted(flows)}")
+            if name == "wfq" and any(p.get_flow_weight(f"f{f}") < 1 for f in range(3)):
+                bad(f"flow-weight-below-one/{name}", where)
+        if name == "adaptive" and (p.is_congested != (len(p) >= p.congestion_threshold) or p.mode != ("LIFO" if p.is_congested else "FIFO")):
+            bad(f"mode-disagrees-with-depth/{name}", f"{where}: len={len(p)} threshold={p.congestion_threshold} mode={p.mode}")
+        if len(p) != n0:
+            bad(f"observer-changes-queue/{name}", f"{where}: observers changed len {n0} -> {len(p)}")
+
+    def maintenance(x):
+        """Call the policy's public maintenance methods (today: DeadlineQueue.purge_expired / set_clock)."""
+        if name == "deadline":
+            if x % 4 == 3:
+                p.set_clock(lambda: Instant(now[0] * TICK))          # same clock again: must change nothing
+            e0 = p.stats.expired
+            n = p.purge_expired()
+            gone = ref.purge(now[0])
+            if n != len(gone) or p.stats.expired - e0 != len(gone):
+                bad(f"purge-count-wrong/{name}", f"purge_expired() -> {n}, stats.expired +{p.stats.expired - e0}, "
+                    f"expired items held: {gone} (now={now[0]}tk)")
+            for i in gone:
+                held.pop(i, None)
+            if gone:
+                r.labels.append("purged")
+        elif name == "codel":
+            p.set_clock(lambda: Instant(now[0] * TICK))
+
     def on_pop(it, where, exp=None):
         nonlocal popped
         if it is None:
@@ -251,6 +318,9 @@ def policy_execute(case):
             continue
         if kind == "adv":
             now[0] += x
+        elif kind == "maint":
+            maintenance(x)
+            check("after maintenance")
         elif kind == "push":
             it = It(nid, x % 4, now[0] + y % 7 - 2, z % 3)
             nid += 1
@@ -290,6 +360,7 @@ def policy_execute(case):
                 while len(held) > len(p):
                     held.pop(min(held))
             check("after pop")
+        observers(f"after {kind}")
     # final drain
     aborted = False
     for _ in range(len(p) + 2):
@@ -341,7 +412,12 @@ def _rec_policy(inner, T):
             return ok
 
         def pop(self):
+            st0 = getattr(inner, "stats", None)
+            e0 = getattr(st0, "expired", 0)
             it = inner.pop()
+            dropped = getattr(getattr(inner, "stats", None), "expired", 0) - e0
+            if dropped:
+                T.expired_at_pop(dropped)         # DeadlineQueue discards expired entries on its way to a live one
             if it is not None:
                 T.popped(it)
             return it
@@ -388,6 +464,7 @@ class Track:
         s["push"] = ok
         s["w"] = ev.context.get("metadata", {}).get("weight", 1)
         s["prio"] = ev.context.get("prio", 0)
+        s["dl"] = ev.context.get("dl")
         if ok:
             self.push_order.append(self.rid(ev))
 
@@ -400,14 +477,30 @@ class Track:
         if s["pop"] > 1:
             self.bad("duplicated/dequeued-twice", f"request {self.rid(ev)} at {tk(self.now())}")
 
+    def expired_at_pop(self, n):
+        """The policy counted n expired entries: they are the n earliest-deadline waiting requests, all past their deadline."""
+        now = self.now()
+        waiting = sorted((s["dl"], self.push_order.index(q), q) for q, s in self.st.items()
+                         if s["push"] and not s["pop"] and not s.get("expired") and s.get("dl") is not None)
+        for dl, _, q in waiting[:n]:
+            self.st[q]["expired"] = True
+            self.labels.add("expired-in-queue")
+            if dl >= now:
+                self.bad("lost/live-request-dropped-as-expired", f"request {q} (deadline {tk(dl)}) dropped at {tk(now)}")
+        if len(waiting) < n:
+            self.bad("counter-mismatch/expired", f"policy counted {n} expired entries at {tk(now)}, only {len(waiting)} requests waiting")
+
     def buckets(self, upto):
-        b = {"dropped": [], "waiting": [], "transit": [], "service": [], "rejected": [], "done": [], "lost": [], "reneged": []}
+        b = {"dropped": [], "waiting": [], "transit": [], "service": [], "rejected": [], "done": [], "lost": [], "reneged": [],
+             "expired": []}
         for rid in upto:
             s = self.st.get(rid)
             if s is None or s["push"] is None:
                 b["lost"].append(rid)
             elif s["push"] is False:
                 b["dropped"].append(rid)
+            elif s.get("expired"):
+                b["expired"].append(rid)
             elif not s["pop"]:
                 b["waiting"].append(rid)
             elif not s["recv"]:
@@ -462,7 +555,7 @@ def pipeline_strategy(kinds, safe=False, no_setlimit=False):
                                      "prio": st.integers(0, 2), "w": st.integers(1, 3), "pat": st.sampled_from([0, 1, 2, 9])})
         return st.fixed_dictionaries({
             "target": st.sampled_from(kinds), "limit": st.just(1) if safe else st.sampled_from([1, 1, 2, 3]),
-            "qcap": st.sampled_from([0, 0, 1, 2, 3]), "policy": st.sampled_from(["fifo", "fifo", "lifo", "priority"]),
+            "qcap": st.sampled_from([0, 0, 1, 2, 3]), "policy": st.sampled_from(["fifo", "fifo", "lifo", "priority", "deadline"]),
             "conc": st.sampled_from(["fixed", "fixed", "dynamic", "weighted"]),
             "svc": st.one_of(st.just([0]), st.lists(st.sampled_from([0, 1, 1, 2, 3, 4]), min_size=1, max_size=5),
                              st.lists(st.sampled_from([0, 1, 1, 2, 3, 4]), min_size=1, max_size=5)),
@@ -489,7 +582,7 @@ def pipeline_execute(obl, safe=False, no_setlimit=False):
         limit = 1 + (int(case.get("limit", 1)) - 1) % 3
         qcap = int(case.get("qcap", 0)) % 4
         svc = [int(x) % 8 for x in (case.get("svc") or [1])] or [1]
-        pol = case.get("policy") if case.get("policy") in ("fifo", "lifo", "priority") else "fifo"
+        pol = case.get("policy") if case.get("policy") in ("fifo", "lifo", "priority", "deadline") else "fifo"
         conc = case.get("conc") if (case.get("conc") in ("fixed", "dynamic", "weighted") and kind == "server") else "fixed"
         expanded = expand_arrivals((case.get("arrivals") or [])[:16])
         arrivals = [a for a, _ in expanded]
@@ -503,7 +596,13 @@ def pipeline_execute(obl, safe=False, no_setlimit=False):
         T = Track(bad, now)
         cap = qcap if qcap else float("inf")
         inner = {"fifo": FIFOQueue, "lifo": LIFOQueue}.get(pol)
-        inner = inner(cap) if inner else PriorityQueue(cap, key=lambda e: e.context.get("prio", 0))
+        if pol == "deadline":
+            from happysimulator.components.queue_policies import DeadlineQueue
+            # the library never calls purge_expired() itself; expiry happens inside pop() once the clock has passed a deadline
+            inner = DeadlineQueue(get_deadline=lambda e: Instant(e.context["dl"]), capacity=(qcap or None),
+                                  clock_func=lambda: clock[0].now)
+        else:
+            inner = inner(cap) if inner else PriorityQueue(cap, key=lambda e: e.context.get("prio", 0))
         rec = _rec_policy(inner, T)
         in_service = []
         S = {"limit": limit, "weights": conc == "weighted", "rej_counter": lambda: 0, "chain": None}
@@ -770,7 +869,8 @@ def pipeline_execute(obl, safe=False, no_setlimit=False):
             t = int(a.get("t", 0)) % 64
             at = t * TICK + (expanded[rid][1] if safe else 0)
             arr_t[rid] = at
-            ctx = {"rid": rid, "prio": int(a.get("prio", 0)) % 3}
+            pat_ = int(a.get("pat", 9)) % 10
+            ctx = {"rid": rid, "prio": int(a.get("prio", 0)) % 3, "dl": at + (pat_ + 1 if pat_ < 9 else 5000) * TICK}
             if conc == "weighted":
                 ctx["metadata"] = {"weight": 1 + (int(a.get("w", 1)) - 1) % limit}
             if kind == "reneging":
@@ -795,6 +895,8 @@ def pipeline_execute(obl, safe=False, no_setlimit=False):
                 bad("counter-mismatch/dropped", f"end of instant {tk(t_ns)}: stats_dropped={dropped()} but refused pushes {b['dropped']}")
             if kind == "reneging" and comp.reneged != len(b["reneged"]):
                 bad("counter-mismatch/reneged", f"end of instant {tk(t_ns)}: reneged={comp.reneged} trace {b['reneged']}")
+            if pol == "deadline" and inner.stats.expired != len(b["expired"]):
+                bad("counter-mismatch/expired", f"end of instant {tk(t_ns)}: stats.expired={inner.stats.expired} trace {b['expired']}")
             if S["rej_counter"]() != len(b["rejected"]):
                 bad("counter-mismatch/rejected", f"end of instant {tk(t_ns)}: rejected counter={S['rej_counter']()} trace {b['rejected']}")
             for rid in b["done"]:
@@ -1078,7 +1180,7 @@ RULE_PIPE = ("1-10 tagged requests (thorough 14) at ticks 0-6 (bursts on one ns)
 
 OBLIGATIONS = [
     Obligation("policy", policy_strategy, policy_execute, {"quick": 5000, "thorough": 200000},
-               "op sequences (push with priority/deadline/flow, pop, advance clock) of up to 40 (60) steps against each of the 10 policies "
+               "op sequences (push with priority/deadline/flow, pop, advance clock, maintenance = every public maintenance method of the policy, i.e. DeadlineQueue.purge_expired / set_clock; all public observers are compared with the harness bookkeeping after every step) of up to 40 (60) steps against each of the 10 policies "
                "with capacity none/1-5; exact reference models for fifo/lifo/priority/deadline/fair, contract invariants for the rest; "
                "non-trivial = at least 3 accepted pushes"),
     Obligation("qd", pipeline_strategy(["qd", "qr"]), pipeline_execute("qd"), {"quick": 1400, "thorough": 60000},
